@@ -154,7 +154,7 @@ func genHeader(t *rapid.T, c Case) (bool, string) {
 	return true, base
 }
 
-// Gen draws one operation and 6-10 requests.
+// Gen draws one operation and 1-12 requests.
 func Gen(t *rapid.T) Case {
 	c := Case{Consumes: genConsumes(t)}
 	if c.Consumes != nil {
@@ -168,8 +168,7 @@ func Gen(t *rapid.T) Case {
 		}
 	}
 	c.Method = rapid.SampledFrom(methods).Draw(t, "method")
-	n := rapid.IntRange(6, 10).Draw(t, "requests")
-	for i := 0; i < n; i++ {
+	c.Reqs = rapid.SliceOfN(rapid.Custom(func(t *rapid.T) Req {
 		var q Req
 		has, ct := genHeader(t, c)
 		q.HasCT, q.CT = has, kit.BStr(ct)
@@ -178,8 +177,8 @@ func Gen(t *rapid.T) Case {
 		case "wire-cl", "wire-chunked", "direct-sized", "direct-unsized", "direct-minus1":
 			q.Payload = kit.BStr(rapid.SampledFrom(payloads).Draw(t, "payload"))
 		}
-		c.Reqs = append(c.Reqs, q)
-	}
+		return q
+	}), 1, 12).Draw(t, "requests")
 	return c
 }
 
@@ -260,14 +259,14 @@ func Classify(c Case) (bool, []string) {
 }
 
 const ruleText = "consumes list of 0-4 lower-case entries (concrete, type/*, */*, entries with parameters; not declared / empty; operation or global) x API default media type x registered consumers; " +
-	"6-10 requests: Content-Type from a grammar (entry/registered/other type, case, parameters, blanks, verbatim, absent, malformed table, raw header-safe bytes) x body by Content-Length / chunked / none / zero / in-process variants x 7 methods; " +
+	"1-12 requests: Content-Type from a grammar (entry/registered/other type, case, parameters, blanks, verbatim, absent, malformed table, raw header-safe bytes) x body by Content-Length / chunked / none / zero / in-process variants x 7 methods; " +
 	"both entry points (BindAndValidate behind APIHandler, BindValidRequest with a recording binder) on the same request; non-trivial: body present and header not byte-equal to a list entry"
 
 func Props() []kit.Runner {
 	return []kit.Runner{
 		kit.Prop[Case]{ID: "C06", Name: "untyped", Rule: "[untyped API as is] " + ruleText,
-			Quick: 1500, Thorough: 6000, Gen: Gen, Check: CheckUntyped, Classify: Classify},
+			Quick: 1200, Thorough: 6000, Gen: Gen, Check: CheckUntyped, Classify: Classify},
 		kit.Prop[Case]{ID: "C06", Name: "wild", Rule: "[RoutableAPI whose ConsumersFor resolves type/* and */* to the registered concrete consumers] " + ruleText,
-			Quick: 1500, Thorough: 6000, Gen: Gen, Check: CheckWild, Classify: Classify},
+			Quick: 1200, Thorough: 6000, Gen: Gen, Check: CheckWild, Classify: Classify},
 	}
 }
